@@ -249,6 +249,23 @@ static void gen_rgm_bits(hctx* h, int t, const uint64_t* rows, int n, uint64_t l
     do_rgm(h, &c, 0); rg_free(&c);
 }
 
+/* directed: one BYTE_ARRAY group whose bounds have different lengths, statistics placed in the
+ * new fields (dep=0), the deprecated fields only (dep=1) or new-min-only + deprecated pair (dep=2: fallback) */
+static void gen_rgm_ba(hctx* h, const char* const* rows, int n, const char* lo, const char* hi, int dep, int op, const char* probe) {
+    rg_case c; memset(&c, 0, sizeof c); c.t = T_BA; c.tl = 0; c.ng = 1;
+    c.g = (rg_group*)h_alloc(sizeof(rg_group)); memset(c.g, 0, sizeof(rg_group));
+    c.g[0].n = n; c.g[0].rows = (val_t*)h_alloc(sizeof(val_t) * (size_t)n);
+    for (int k = 0; k < n; k++) c.g[0].rows[k] = v_make(rows[k], (int)strlen(rows[k]));
+    rg_stats* s = &c.g[0].st; s->mn = v_null(); s->mx = v_null(); s->mnd = v_null(); s->mxd = v_null();
+    val_t l = v_make(lo, (int)strlen(lo)), u = v_make(hi, (int)strlen(hi));
+    if (dep == 0) { s->mn = v_dup(l); s->mx = v_dup(u); }
+    else if (dep == 1) { s->mnd = v_dup(l); s->mxd = v_dup(u); }
+    else { s->mn = v_dup(l); s->mnd = v_dup(l); s->mxd = v_dup(u); }
+    v_free(&l); v_free(&u);
+    c.op = op; c.probe = v_make(probe, (int)strlen(probe)); c.maxidx = 4; c.col = 0;
+    do_rgm(h, &c, 0); rg_free(&c);
+}
+
 /* ======================= generator ======================= */
 static void gen_stats(hctx* h) {
     long scale = h->thorough ? 50 : 1;
@@ -284,6 +301,13 @@ static void gen_stats(hctx* h) {
         { const int l[] = { 256, 257, 255 }; const uint8_t c[] = { 'a', 'a', 'a' }; gen_sb_strings(h, l, c, 3); }
         { const int l[] = { 257 }; const uint8_t c[] = { 'a' }; gen_sb_strings(h, l, c, 1); }
         /* reader: NaN max with a match below it (GT / GE), NaN probe with !=, all-NaN group with != */
+        { /* byte-array bounds of unequal length, in every placement of the statistics fields */
+          static const char* const r1[] = { "b", "zebra" }; static const char* const r2[] = { "aaaa", "b" };
+          static const char* const pr[] = { "b", "a", "c", "zebra", "zebrb", "aaaa", "aaa", "" };
+          for (int dep = 0; dep < 3; dep++) for (int op = 0; op < 6; op++) for (int q = 0; q < 8; q++) {
+              gen_rgm_ba(h, r1, 2, "b", "zebra", dep, op, pr[q]);
+              if (q % 2 == 0) gen_rgm_ba(h, r2, 2, "aaaa", "b", dep, op, pr[q]);
+          } }
         { const uint64_t r[] = { 0x3f800000u, N }; gen_rgm_bits(h, T_F32, r, 2, 0x3f800000u, N, 4, 0);
           gen_rgm_bits(h, T_F32, r, 2, 0x3f800000u, N, 5, 0x3f800000u); gen_rgm_bits(h, T_F32, r, 2, 0x3f800000u, N, 1, 0x3f800000u); }
         { const uint64_t r[] = { P5 }; gen_rgm_bits(h, T_F32, r, 1, P5, P5, 1, N); }
